@@ -32,9 +32,9 @@ open BqVerif.Graph
 
 /-! ## 1. the routing machine -/
 
-/-- **Every accepted trace.**  For every coupling graph `g` on `n` vertices, every input
+/-- **Every accepted trace.**  For every coupling graph `g`, every input on `n` qudits
 operation list and EVERY move sequence accepted by the forward pass (exec / swap / backtracking
-unswap / PAM block moves) that empties the front:
+unswap / PAM barrier and block moves) that empties the front:
 * (π) `pi` is still a permutation of `0..n-1`;
 * (3) every emitted item satisfies the coupling clause;
 * (5) un-routing the emitted list from the identity assignment ends exactly at the final `pi`
@@ -44,14 +44,13 @@ unswap / PAM block moves) that empties the front:
   parameters, radixes): nothing but swaps is added. -/
 theorem C09_route_any_trace (free : Nat → Bool) (g : G) (n : Nat) (ops : List Op)
     (moves : List Move) (s : St)
-    (hg : g.WF) (hn : g.n = n) (hw : OpsWF n ops)
-    (hnb : ∀ m ∈ moves, m.noPamBarrier = true)
+    (hg : g.WF) (hw : OpsWF n ops)
     (hrun : run free g (init n ops) moves = some s) (hdone : s.rem = []) :
     PermN n s.pi ∧ s.pi.Perm (List.range n) ∧
     (∀ e ∈ s.out, EmOK free g e) ∧
     ∃ L, unroute (List.range n) s.out = (L, s.pi) ∧ L.Perm ops ∧ (∀ q, proj q L = proj q ops) ∧
       L.map strip = (gatesOf s.out).map strip := by
-  have hinv := inv_run hg hn hw moves (inv_init free g n ops) hnb hrun
+  have hinv := inv_run hg hw moves (inv_init free g n ops) hrun
   obtain ⟨L, hun, hp, hpr⟩ := hinv.un
   rw [hdone, List.append_nil] at hp
   simp only [hdone, List.append_nil] at hpr
@@ -62,7 +61,7 @@ theorem C09_route_any_trace (free : Nat → Bool) (g : G) (n : Nat) (ops : List 
 
 /-- non-vacuity: a line 0-1-2, CX(0,2) then CX(0,1); one swap is needed -/
 example : ∃ (g : G) (ops : List Op) (moves : List Move) (s : St),
-    g.WF ∧ g.n = 3 ∧ OpsWF 3 ops ∧ (∀ m ∈ moves, m.noPamBarrier = true) ∧
+    g.WF ∧ OpsWF 3 ops ∧
     run (fun _ => false) g (init 3 ops) moves = some s ∧ s.rem = [] ∧ s.pi = [0, 1, 2] :=
   by
   obtain ⟨s, hs, hp⟩ := (Option.any_eq_true _ _).1 (show (run (fun _ => false) ⟨3, [(0, 1), (1, 2)]⟩
@@ -70,7 +69,7 @@ example : ∃ (g : G) (ops : List Op) (moves : List Move) (s : St),
     [.swap 1 2, .exec 0, .swap 1 2, .exec 0]).any
       (fun s => decide (s.rem = []) && decide (s.pi = [0, 1, 2])) = true by decide)
   simp only [Bool.and_eq_true, decide_eq_true_eq] at hp
-  exact ⟨_, _, _, s, by simp [G.WF], rfl, by simp [OpsWF], by decide, hs, hp.1, hp.2⟩
+  exact ⟨_, _, _, s, by simp [G.WF], by simp [OpsWF], hs, hp.1, hp.2⟩
 
 /-- (3) for two-qudit operations: the two physical qudits are adjacent. -/
 theorem C09_two_qudit_adjacent (free : Nat → Bool) (g : G) (o : Op) (x y : Nat)
@@ -212,7 +211,6 @@ theorem C09_workflow (free : Nat → Bool) (m : G) (n : Nat) (ops : List Op) (P 
     (out : List Em) (s : St) (d4 d5 : PD)
     (hm : m.WF) (hw : OpsWF n ops) (hP : P.length = n)
     (him : PermN n d0.im) (hfm : PermN n d0.fm)
-    (hnb : ∀ mv ∈ moves, mv.noPamBarrier = true)
     (h : workflow free m n ops P lay moves d0 = some (out, s, d4, d5)) :
     (d4.placement.Nodup ∧ d4.placement.length = n ∧ (∀ x ∈ d4.placement, x < m.n) ∧
       ConnectedOn m d4.placement ∧ d4.placement.Perm P) ∧
@@ -224,13 +222,12 @@ theorem C09_workflow (free : Nat → Bool) (m : G) (n : Nat) (ops : List Op) (P 
     (PermN n s.pi ∧ d5.im = d0.im.map (piAt d4.placement) ∧
       d5.fm = d0.fm.map (piAt (s.pi.map (piAt d4.placement))) ∧
       d5.placement = List.range m.n ∧ d5.model = m) :=
-  workflow_spec hm hw hP him hfm hnb h
+  workflow_spec hm hw hP him hfm h
 
 /-- non-vacuity: CX(0,2); CX(0,1) on the machine 0-1-2-3, placed on [3,2,1] after a layout swap -/
 example : ∃ (m : G) (ops : List Op) (P : List Nat) (lay : Option (List LMove)) (moves : List Move)
     (d0 : PD) (r : List Em × St × PD × PD),
     m.WF ∧ OpsWF 3 ops ∧ P.length = 3 ∧ PermN 3 d0.im ∧ PermN 3 d0.fm ∧
-    (∀ mv ∈ moves, mv.noPamBarrier = true) ∧
     workflow (fun _ => false) m 3 ops P lay moves d0 = some r ∧ r.2.2.2.fm = [3, 2, 1] :=
   by
   obtain ⟨r, hs, hp⟩ := (Option.any_eq_true _ _).1 (show (workflow (fun _ => false)
@@ -239,7 +236,7 @@ example : ∃ (m : G) (ops : List Op) (P : List Nat) (lay : Option (List LMove))
     ⟨⟨3, []⟩, [0, 1, 2], [0, 1, 2], [0, 1, 2]⟩).any
       (fun r => decide (r.2.2.2.fm = [3, 2, 1])) = true by decide)
   exact ⟨_, _, _, _, _, _, r, by simp [G.WF], by simp [OpsWF], rfl,
-    ⟨by decide, by decide, by decide⟩, ⟨by decide, by decide, by decide⟩, by decide, hs,
+    ⟨by decide, by decide, by decide⟩, ⟨by decide, by decide, by decide⟩, hs,
     by simpa using hp⟩
 
 /-! ## 7. denotation (S4) -/
@@ -263,17 +260,13 @@ example : ∃ (l : List Em) (π : List Nat), ∀ e ∈ l, ∀ x ∈ e.labels, x 
 identity assignment to the final `pi` — for every accepted SABRE trace (exec / swap / unswap). -/
 theorem C09_route_denotation {M : Type} (S : Sem M) (free : Nat → Bool) (g : G) (n : Nat)
     (ops : List Op) (moves : List Move) (s : St)
-    (hg : g.WF) (hn : g.n = n) (hw : OpsWF n ops) (hne : ∀ o ∈ ops, o.loc ≠ [])
+    (hg : g.WF) (hw : OpsWF n ops) (hne : ∀ o ∈ ops, o.loc ≠ [])
     (hsab : ∀ m ∈ moves, m.isSabre = true)
     (hrun : run free g (init n ops) moves = some s) (hdone : s.rem = []) :
     S.den (physOps S.swapOp s.out) =
       S.mul (S.den ops) (S.den (swapNet S.swapOp (swapsOf s.out))) ∧
     carry (List.range n) (swapsOf s.out) = s.pi := by
-  have hnb : ∀ m ∈ moves, m.noPamBarrier = true := by
-    intro m hm
-    have := hsab m hm
-    cases m <;> simp_all [Move.isSabre, Move.noPamBarrier]
-  have hinv := inv_run hg hn hw moves (inv_init free g n ops) hnb hrun
+  have hinv := inv_run hg hw moves (inv_init free g n ops) hrun
   obtain ⟨L, hun, hp, hpr⟩ := hinv.un
   rw [hdone, List.append_nil] at hp
   simp only [hdone, List.append_nil] at hpr
@@ -308,7 +301,7 @@ variant of the block, applies `_apply_perm(p2)`.  In the model the variant is re
 it has to be equal to: virtual swaps realising `p1` on the block's physical qudits, the ORIGINAL
 block at the permuted location, virtual swaps realising `p2` (the guard of the move checks that
 the virtual swaps realise exactly the two `_apply_perm` calls).  For every accepted PAM trace
-without barrier moves the combinatorial clauses hold by `C09_route_any_trace`, and this ideal
+the combinatorial clauses hold by `C09_route_any_trace`, and this ideal
 physical list denotes the input followed by the network of real and virtual swaps.
 What is NOT proved (hence `_partial`): that the emitted variant circuit equals its ideal
 expansion, `den variant = den (vswaps p1 ++ [block] ++ vswaps p2)` — a numerical fact about
@@ -316,13 +309,12 @@ synthesis; `hvar` takes it as a hypothesis for the physical list `phys` actually
 harness measures it on every PAM block of the real output. -/
 theorem C09_pam_variant_partial {M : Type} (S : Sem M) (free : Nat → Bool) (g : G) (n : Nat)
     (ops : List Op) (moves : List Move) (s : St) (phys : List Op)
-    (hg : g.WF) (hn : g.n = n) (hw : OpsWF n ops) (hne : ∀ o ∈ ops, o.loc ≠ [])
-    (hnb : ∀ m ∈ moves, m.noPamBarrier = true)
+    (hg : g.WF) (hw : OpsWF n ops) (hne : ∀ o ∈ ops, o.loc ≠ [])
     (hrun : run free g (init n ops) moves = some s) (hdone : s.rem = [])
     (hvar : S.den phys = S.den (allOps S.swapOp s.out)) :
     S.den phys = S.mul (S.den ops) (S.den (swapNet S.swapOp (swapsOf s.out))) ∧
     carry (List.range n) (swapsOf s.out) = s.pi := by
-  have hinv := inv_run hg hn hw moves (inv_init free g n ops) hnb hrun
+  have hinv := inv_run hg hw moves (inv_init free g n ops) hrun
   obtain ⟨L, hun, hp, hpr⟩ := hinv.un
   rw [hdone, List.append_nil] at hp
   simp only [hdone, List.append_nil] at hpr
@@ -342,21 +334,25 @@ theorem C09_pam_variant_partial {M : Type} (S : Sem M) (free : Nat → Bool) (g 
 theorem C09_pam_blockwise {M : Type} (S : Sem M) (A B : List (List Op)) (h : S.segEq A B) :
     S.den A.flatten = S.den B.flatten := S.den_flatten_congr A B h
 
-/-- **Witness (finding).**  PAM's barrier branch appends the barrier at the LOGICAL location
-(`mapped_circuit.append_gate(op.gate, op.location)`, pam.py) although `physical_location` was
-just computed.  With the barrier move the conclusion of `C09_route_any_trace` fails: on the line
-0-1-2 route `CX(0,2); barrier(0,1)`: after the swap (1,2) logical qudit 1 sits on physical qudit 2,
-the barrier lands on physical (0,1) = logical (0,2), so qudit 1 loses its barrier. -/
-theorem C09_pam_barrier_witness :
+/-- **Former finding, fixed by 9e5a524.**  PAM's barrier branch used to append the barrier at the
+LOGICAL location (`mapped_circuit.append_gate(op.gate, op.location)`) although
+`physical_location` had just been computed.  The former witness: on the line 0-1-2 route
+`CX(0,2); barrier(0,1)` with one swap (1,2) — the barrier then sat on physical (0,1) = logical
+(0,2).  With the fixed code (and model) the barrier lands on physical (0,2) and every timeline of
+the un-routed list equals the input's, as `C09_route_any_trace` guarantees in general. -/
+theorem C09_pam_barrier_regression :
     let g : G := ⟨3, [(0, 1), (1, 2)]⟩
     let ops : List Op := [⟨1, [], [0, 2], [2, 2]⟩, ⟨9, [], [0, 1], [2, 2]⟩]
     ∃ s, run (fun gid => gid == 9) g (init 3 ops) [.swap 1 2, .exec 0, .pamBarrier 0] = some s ∧
-      s.rem = [] ∧ proj 1 (unroute (List.range 3) s.out).1 ≠ proj 1 ops := by
+      s.rem = [] ∧ s.out.getLast? = some (.gate ⟨9, [], [0, 2], [2, 2]⟩) ∧
+      ∀ q, q < 3 → proj q (unroute (List.range 3) s.out).1 = proj q ops := by
   intro g ops
   obtain ⟨s, hs, hp⟩ := (Option.any_eq_true _ _).1 (show (run (fun gid => gid == 9) g (init 3 ops)
     [.swap 1 2, .exec 0, .pamBarrier 0]).any (fun s => decide (s.rem = []) &&
-      decide (proj 1 (unroute (List.range 3) s.out).1 ≠ proj 1 ops)) = true by decide)
-  simp only [Bool.and_eq_true, decide_eq_true_eq] at hp
-  exact ⟨s, hs, hp.1, hp.2⟩
+      decide (s.out.getLast? = some (.gate ⟨9, [], [0, 2], [2, 2]⟩)) &&
+      (List.range 3).all (fun q =>
+        decide (proj q (unroute (List.range 3) s.out).1 = proj q ops))) = true by decide)
+  simp only [Bool.and_eq_true, decide_eq_true_eq, List.all_eq_true, List.mem_range] at hp
+  exact ⟨s, hs, hp.1.1, hp.1.2, hp.2⟩
 
 end BqVerif.Route
